@@ -49,10 +49,10 @@ CHECKS = {
          "On the real engine, in chain states reached by random histories (also after reorgs), eth_call (and eth_callMany sequences) are compared with the transaction(s) executed next from the same sender (inscription and signed), using receipt status, trace output, installed code and nonce-derived addresses.",
          "Time/randomness/gas/txid-reading code excluded as in the statement; output comparison needs traces (regtest/signet workers)."),
  "C12": ("exploration", "complete request matrix against the real HTTP server (start()) with raw headers + authorised effect classification + twin after sweep",
-         "Every registered method x {call, notification, batch positions, notification-only batch} x 11 Authorization header variants x {auth on, off} sent over raw HTTP to the real server; deny-listed+unauthorised must yield 401 and an unchanged state digest, everything else must be served; every method is classified by its authorised effect and mutating ones must be on the list; a fixed authorised script after an unauthorised sweep must match a twin server.",
+         "Every registered method x {call, notification, batch positions, notification-only batch} x 17 Authorization header variants x {auth on, off}; servers configured with credentials from the whole RFC 7617 alphabet sent over raw HTTP to the real server; deny-listed+unauthorised must yield 401 and an unchanged state digest, everything else must be served; every method is classified by its authorised effect and mutating ones must be on the list; a fixed authorised script after an unauthorised sweep must match a twin server.",
          "Enumerates the finite matrix (exhaustive for the listed header variants / forms); parameter values are one well-formed template per method."),
  "C20": ("exploration", "expected-outcome table over all ordered configuration pairs + tampered/foreign directories, real start() per case",
-         "All 196 ordered (creating, reopening) pairs over 7 network strings x trace flag on fresh and populated directories, 40 tamper cases edited directly in the config RocksDB and 7 foreign/fresh directory shapes; start() must succeed iff all four recorded values match; on success Obs over HTTP equals the one before the stop.",
+         "All 256 ordered (creating, reopening) pairs over 8 network strings (incl. the empty name) x trace flag on fresh and populated directories, 40 tamper cases edited directly in the config RocksDB and 7 foreign/fresh directory shapes; start() must succeed iff all four recorded values match; on success Obs over HTTP equals the one before the stop.",
          "Protocol/db version mismatches are simulated by editing the recorded versions."),
  "C09": ("exploration", "structure-aware fuzzing of the real method table with a process-wide panic hook, liveness probes (read + write round) and logical hang witnesses",
          "Every registered method is driven in-process with typed mutations of well-formed templates, random/mutated bytecode, ABI-valid boundary and ABI-invalid precompile inputs (direct, via contract, via overrides, via executed transactions) in five engine states; any panic while serving, any lost liveness (height must rise by exactly one in a write round) and any mine overrun is a violation; watchdog expiry is inconclusive.",
